@@ -1088,6 +1088,17 @@ class TLSRecordLayer(object):
                         break
                 recordHeader, p = result
 
+                # TLS 1.3 Handshake messages MUST NOT be interleaved with
+                # other messages, Section 5.1 RFC 8446
+                if self.version > (3, 3) and \
+                        recordHeader.type != ContentType.handshake and \
+                        self._defragmenter.buffers[ContentType.handshake]:
+                    for result in self._sendError(
+                            AlertDescription.unexpected_message,
+                            "Interleaved Handshake and "
+                            "non-handshake messages"):
+                        yield result
+
                 # if this is a CCS message in TLS 1.3, sanity check and
                 # continue
                 if self.version > (3, 3) and \
@@ -1102,17 +1113,6 @@ class TLSRecordLayer(object):
                             yield result
                     # ignore the message
                     continue
-
-                # TLS 1.3 Handshake messages MUST NOT be interleaved with
-                # other messages, Section 5.1 RFC 8446
-                if self.version > (3, 3) and \
-                        recordHeader.type != ContentType.handshake and \
-                        self._defragmenter.buffers[ContentType.handshake]:
-                    for result in self._sendError(
-                            AlertDescription.unexpected_message,
-                            "Interleaved Handshake and "
-                            "non-handshake messages"):
-                        yield result
 
                 #If we received an unexpected record type...
                 if recordHeader.type not in expectedType:
